@@ -32,7 +32,8 @@ INTERFACE
 * `Expr.isGo`/`Stmt.isGo`/`Prog.isGo`  "no sugar constructor" = the MiniGo fragment.
 * `Prog.compilable`  model of "the real compiler accepts": lowering succeeded in removing all sugar,
                      every `?` wraps a call with ≤ 1 value (gogen's inline closure cannot deliver
-                     several values — recorded finding), inside a function whose last result is `error`.
+                     several values — recorded finding) and a `?` used as a statement has no value
+                     (the compiler would emit the bare result variable as a statement — recorded finding).
 Not modelled: range expressions (`a:b:c`, C04), lambdas, string interpolation, `_autoGo` numbering
 across functions (gogen numbers per package; the structural tie renames), the `goto` to the label
 that ends an inlined block.
@@ -365,6 +366,7 @@ def Stmt.qOk : Stmt → Bool
   | .define _ es | .assign _ es | .ret es | .send _ es _ => qOkEs es
   | .setIndex _ k v => k.qOk && v.qOk
   | .varDecl _ _ => true
+  | .expr (.errQ _ _ args tys) => tys.isEmpty && qOkEs args   -- a discarded value leaves `_autoGo_n` as a statement: not Go
   | .expr e | .panic e => e.qOk
   | .ifS _ thn els => qOkSs thn && qOkSs els
   | .forRange _ _ _ body | .forIn _ _ _ _ body | .forC _ _ _ body => qOkSs body
